@@ -118,13 +118,63 @@ theorem head_ok (s : St) (h : okScript s = true) : s.script.head?.getD { acts :=
 def Going (s : St) : Prop :=
   s.stopping = false ∧ s.shuttingDown = false ∧ s.startD = .pending ∧ okScript s = true
 
+macro "sfx" : tactic => `(tactic|
+  first | exact ⟨[], rfl⟩ | exact ⟨[_], rfl⟩ | exact ⟨[_, _], rfl⟩ | exact ⟨[_, _, _], rfl⟩)
+
+theorem emit_ext (o : Ob) (s : St) : s.out <:+ (emit o s).out := List.suffix_cons _ _
+theorem sendCommitRequest_ext (cfg : Cfg) (d : Option Rat) (a : Option Nat) (s : St) : s.out <:+ (sendCommitRequest cfg d a s).out := by
+  rcases s with ⟨fo, lp, lc, stp, shd, sdD, lpr, cds, creq, sD, rD, rC, cC, mb, pk, pr, fr, rdl, att, bs, nw, nr, nc, nwt, sc, er, ec, cr, out⟩
+  cases cC <;> cases creq <;> cases lp <;> sfx
+theorem looperReset_ext (cfg : Cfg) (s : St) : s.out <:+ (looperReset cfg s).out := by
+  rcases s with ⟨fo, lp, lc, stp, shd, sdD, lpr, cds, creq, sD, rD, rC, cC, mb, pk, pr, fr, rdl, att, bs, nw, nr, nc, nwt, sc, er, ec, cr, out⟩
+  rcases lpr with _ | ⟨st, _ | due⟩ <;> sfx
+theorem startErrback_ext (f : Fail) (s : St) : s.out <:+ (startErrback f s).out := by
+  rcases s with ⟨fo, lp, lc, stp, shd, sdD, lpr, cds, creq, sD, rD, rC, cC, mb, pk, pr, fr, rdl, att, bs, nw, nr, nc, nwt, sc, er, ec, cr, out⟩
+  cases sD <;> sfx
+theorem commitState_ext (cfg : Cfg) (w : Who) (s : St) : s.out <:+ (commitState cfg w s).out := by
+  unfold commitState
+  split
+  · exact List.suffix_refl _
+  split
+  · exact List.suffix_refl _
+  split
+  · cases w <;> exact List.suffix_refl _
+  · exact (sendCommitRequest_ext cfg none none { s with commitDs := [_] }).trans (looperReset_ext cfg _)
+theorem handleAutoCommitError_ext (f : Fail) (s : St) : s.out <:+ (handleAutoCommitError f s).out := by
+  unfold handleAutoCommitError
+  split
+  · exact List.suffix_refl _
+  split
+  · exact startErrback_ext _ _
+  · exact List.suffix_refl _
+theorem autoCommit_ext (cfg : Cfg) (b : Bool) (s : St) : s.out <:+ (autoCommit cfg b s).out := by
+  unfold autoCommit
+  split
+  · exact List.suffix_refl _
+  dsimp only
+  split
+  · exact List.suffix_refl _
+  split
+  · split
+    · exact (commitState_ext _ _ _).trans (handleAutoCommitError_ext _ _)
+    · exact commitState_ext _ _ _
+  · exact List.suffix_refl _
+theorem retryFetch_ext (cfg : Cfg) (a : Option Rat) (s : St) : s.out <:+ (retryFetch cfg a s).out := by
+  unfold retryFetch
+  split
+  · exact List.suffix_refl _
+  split
+  · dsimp only; split <;> exact emit_ext _ _
+  · exact List.suffix_refl _
+
 theorem autoCommit_keeps (cfg : Cfg) (b : Bool) (s : St) :
-    (∃ new, (autoCommit cfg b s).out = new ++ s.out) ∧ (autoCommit cfg b s).stopping = s.stopping ∧
+    (autoCommit cfg b s).stopping = s.stopping ∧
       (autoCommit cfg b s).shuttingDown = s.shuttingDown ∧ (autoCommit cfg b s).startD = s.startD ∧
       (autoCommit cfg b s).script = s.script ∧ (autoCommit cfg b s).proc = s.proc ∧
       (autoCommit cfg b s).msgBlock = s.msgBlock ∧ (autoCommit cfg b s).retryCall = s.retryCall ∧
       (autoCommit cfg b s).requestD = s.requestD ∧ (autoCommit cfg b s).fetchOffset = s.fetchOffset ∧
       (autoCommit cfg b s).parked = s.parked := by
-  sorry
+  unfold autoCommit commitResult commitState handleAutoCommitError sendCommitRequest looperReset crash emit startErrback
+  grind
 
 end Afkak.Proofs.Consumer.L
